@@ -17,7 +17,7 @@ NULLPATH = {"parts": [], "concrete": True, "dt": "none", "mt": "none"}
 def blank(i):
     return {"id": i, "op": "get", "entry": "", "rparts": [], "dt": "none", "mt": "none", "proj": NULLPATH, "mods_pure": True,
             "doc": V("none"), "outcome": "", "res": V("none"), "outcomep": "", "resp": V("none"),
-            "writes": [], "unchanged": True}
+            "writes": [], "unchanged": True, "refusal_clean": True}
 
 
 def apply_mods(p, dt, mt, order, pure=None):
@@ -128,6 +128,22 @@ def multi_concrete_event(i, rparts, mt):
     parts = [gen.build_part(p) for p in rparts]
     out, _ = outcome_of(lambda: getattr(dp.DataPath(*parts), mt)())
     e["outcome"] = out
+    # a REFUSED request leaves nothing behind: the refusal through the method, through the constructor argument and
+    # through assignment to the property of a path that is kept and used again
+    p = dp.DataPath(*parts)
+    before = enc_path(p)
+    MT = {"first": dp.DataPathMultiType.FIRST, "last": dp.DataPathMultiType.LAST, "single": dp.DataPathMultiType.SINGLE,
+          "all": dp.DataPathMultiType.ALL}[mt]
+
+    def assign():
+        p.MULTI_TYPE = MT
+    out2, _ = outcome_of(assign)
+    out3, _ = outcome_of(lambda: dp.DataPath(*parts, multi_type=MT))
+    probe = {"a": [1, 2], "b": 1, 0: "x", 1: [3]}
+    same = enc_path(p) == before and outcome_of(lambda: enc_val(p.get_data(probe, return_paths=True))) == \
+        outcome_of(lambda: enc_val(dp.DataPath(*parts).get_data(probe, return_paths=True)))
+    # (the property says "refused": any raise is a refusal - the constructor route raises AttributeError on the pinned tree)
+    e["refusal_clean"] = bool(out2 != "ok" and out3 != "ok" and same)
     return e
 
 
